@@ -5,6 +5,7 @@ import Driver.Cfg
 import Driver.Corr
 import Driver.Oneway
 import Driver.Srv
+import Driver.NodeConn
 /-!
   The model driver (line protocol, DESIGN.md 3.5): reads one case per line on
   stdin, runs the executable Lean model, prints what it predicts.
@@ -42,5 +43,6 @@ def main (args : List String) : IO UInt32 := do
   | ["oneway"] => loop stdin onewayLine; return 0
   | ["srv"] => loop stdin srvLine; return 0
   | ["order"] => loop stdin orderLine; return 0
+  | ["nodeconn"] => loop stdin nodeconnLine; return 0
   | ["cfg"] => loopSt stdin cfgStep {}; return 0
   | _ => IO.eprintln "usage: driver <engine>"; return 2
